@@ -185,6 +185,7 @@ func harnesses(r *fw.Run) []fw.HarnessSpec {
 		best0    bool            // a BestMasterchainClient caller on a head-0 connection
 		sw       bool            // a thread switches the best connection to conn 1 and reports a head there
 		delays   []time.Duration // waiter i starts after delays[i]
+		timeouts []time.Duration // per waiter: its timeout (default 1 s)
 	}
 	scen := []scenario{
 		{name: "one-waiter-reached", updaters: [][]uint32{{1, 2, 3}}, waiters: []uint32{2}},
@@ -201,12 +202,15 @@ func harnesses(r *fw.Run) []fw.HarnessSpec {
 	scen = append(scen, scenario{name: "satisfied-caller-next-to-pending-waiter", updaters: [][]uint32{{1, 5}}, gaps: 300 * time.Millisecond, waiters: []uint32{5, 1}, delays: []time.Duration{0, 400 * time.Millisecond}})
 	// more heads than the update channel holds, the waiter wants the last one: no notification may be lost
 	scen = append(scen, scenario{name: "channel-filling-last-head-wanted", updaters: [][]uint32{{1, 2, 3, 4, 5, 6, 7, 8, 9, 10, 11, 12}}, waiters: []uint32{12}})
+	// a waiter gives up while another one is still waiting, then a newcomer registers: the one still waiting is woken by its head
+	scen = append(scen, scenario{name: "waiter-leaves-newcomer-arrives", updaters: [][]uint32{{5}}, gaps: 800 * time.Millisecond, waiters: []uint32{9, 5, 9},
+		delays: []time.Duration{0, 0, 500 * time.Millisecond}, timeouts: []time.Duration{300 * time.Millisecond, 2 * time.Second, time.Second}})
 	if !r.Quick() {
 		scen = append(scen, scenario{name: "two-waiters-timeout", updaters: [][]uint32{{1, 2, 3}}, waiters: []uint32{9, 8}})
 	}
 	// deviation bound (delay-bounded scheduling: every departure from the deterministic base scheduler,
 	// every non-first ready select case and every timer-first deviation costs one)
-	bounds := map[string]int{"two-updaters-two-waiters": 2, "channel-filling": 2, "channel-filling-last-head-wanted": 2, "two-waiters-timeout": 2, "satisfied-caller-next-to-pending-waiter": 2}
+	bounds := map[string]int{"two-updaters-two-waiters": 2, "channel-filling": 2, "channel-filling-last-head-wanted": 2, "two-waiters-timeout": 2, "satisfied-caller-next-to-pending-waiter": 2, "waiter-leaves-newcomer-arrives": 2}
 	for _, modeB := range []bool{false, true} {
 		for _, sc := range scen {
 			modeB, sc := modeB, sc
@@ -248,8 +252,12 @@ func harnesses(r *fw.Run) []fw.HarnessSpec {
 								vtimes.Sleep(sc.delays[wi])
 							}
 							start := s.Now()
-							err := p.WaitMasterchainSeqno(ctx, want, time.Second)
-							rec.waits = append(rec.waits, waitResult{wi, want, start, s.Now(), err, conns[0].MasterHead().Seqno})
+							to := time.Second
+							if wi < len(sc.timeouts) && sc.timeouts[wi] > 0 {
+								to = sc.timeouts[wi]
+							}
+							err := p.WaitMasterchainSeqno(ctx, want, to)
+							rec.waits = append(rec.waits, waitResult{wi, want, start, s.Now(), err, conns[0].MasterHead().Seqno, to})
 						})
 					}
 					if sc.cancel {
@@ -291,6 +299,7 @@ type waitResult struct {
 	start, end time.Time
 	err        error
 	headAtEnd  uint32
+	timeout    time.Duration
 }
 type bestResult struct {
 	head uint32
@@ -375,13 +384,13 @@ func runWaiting(c *enum.Ctx, name string, modeB bool, body func(s *sched.S, p *p
 		}
 		// (c) an error no later than start+timeout (mode A: return times are exact)
 		if !modeB {
-			if w.end.Sub(w.start) > time.Second {
-				c.Fail("wait-late:"+name, "WaitMasterchainSeqno(%d, timeout 1s) returned after %v (err=%v)", w.want, w.end.Sub(w.start), w.err)
+			if w.end.Sub(w.start) > w.timeout {
+				c.Fail("wait-late:"+name, "WaitMasterchainSeqno(%d, timeout %v) returned after %v (err=%v)", w.want, w.timeout, w.end.Sub(w.start), w.err)
 			}
 			// (b) reached before the deadline (and not cancelled) -> success
 			if w.err != nil && (rec.cancelAt.IsZero() || w.id != 0) {
 				for _, h := range rec.heads {
-					if h.conn == 0 && h.seqno >= w.want && h.at.Sub(w.start) < time.Second && !h.at.Before(w.start) && name != "best-switch" {
+					if h.conn == 0 && h.seqno >= w.want && h.at.Sub(w.start) < w.timeout && !h.at.Before(w.start) && name != "best-switch" {
 						c.Fail("wait-missed-head:"+name, "the best connection reported head %d at +%v, before the deadline, but WaitMasterchainSeqno(%d) returned %v", h.seqno, h.at.Sub(w.start), w.want, w.err)
 						break
 					}
